@@ -13630,13 +13630,19 @@ LdCalculator_get_r2(LdCalculator *self, PyObject *args)
 {
     int err;
     PyObject *ret = NULL;
-    Py_ssize_t a, b;
+    Py_ssize_t a, b, num_sites;
     double r2;
 
     if (LdCalculator_check_state(self) != 0) {
         goto out;
     }
     if (!PyArg_ParseTuple(args, "nn", &a, &b)) {
+        goto out;
+    }
+    /* Check in the wide type so that huge values cannot wrap to valid ids */
+    num_sites = (Py_ssize_t) tsk_treeseq_get_num_sites(self->ld_calc->tree_sequence);
+    if (a < 0 || a >= num_sites || b < 0 || b >= num_sites) {
+        handle_library_error(TSK_ERR_SITE_OUT_OF_BOUNDS);
         goto out;
     }
     err = tsk_ld_calc_get_r2(self->ld_calc, (tsk_id_t) a, (tsk_id_t) b, &r2);
@@ -13670,6 +13676,13 @@ LdCalculator_get_r2_array(LdCalculator *self, PyObject *args, PyObject *kwds)
     }
     if (!PyArg_ParseTupleAndKeywords(args, kwds, "n|ind", kwlist, &source_index,
             &direction, &max_sites, &max_distance)) {
+        goto out;
+    }
+    /* Check in the wide type so that huge values cannot wrap to valid ids */
+    if (source_index < 0
+        || source_index >= (Py_ssize_t) tsk_treeseq_get_num_sites(
+               self->ld_calc->tree_sequence)) {
+        handle_library_error(TSK_ERR_SITE_OUT_OF_BOUNDS);
         goto out;
     }
     if (direction != TSK_DIR_FORWARD && direction != TSK_DIR_REVERSE) {
